@@ -130,6 +130,9 @@ def run_shard(ctx, binp, dbg, drv, what, shard, nshards, extra_cases=()):
         raise vf.CheckFailure("generator failed: " + out[-500:])
     cases = list(extra_cases) + vf.parse_cases(out)
     del out
+    # probes that may kill the process run one by one in a process of their own
+    lonely = [c for c in cases if vf_param(c[0], "t") == "oom"]
+    cases = [c for c in cases if vf_param(c[0], "t") != "oom"]
     cases_file = os.path.join(ctx.workdir, f"cases{tag}.txt")
     vf.write_cases(cases_file, cases)
     env = {"VERIF_WORK": ctx.workdir}
@@ -138,7 +141,12 @@ def run_shard(ctx, binp, dbg, drv, what, shard, nshards, extra_cases=()):
     for prof, b in profiles:
         ok, bad = vf.lockstep(ctx, b, drv, cases_file, tag=tag + "-" + prof, env=env, timeout=3000)
         res.append((prof, ok, bad))
-    return cases, res
+    for k, case in enumerate(lonely):
+        f1 = os.path.join(ctx.workdir, f"cases{tag}-lonely{k}.txt")
+        vf.write_cases(f1, [case])
+        ok, bad = vf.lockstep(ctx, binp, drv, f1, tag=f"{tag}-lonely{k}", env=env, timeout=300)
+        res.append(("release", ok, bad))
+    return cases + lonely, res
 
 
 def run(ctx):
@@ -157,7 +165,7 @@ def run(ctx):
     samples = []
     n_bad = 0
     with concurrent.futures.ThreadPoolExecutor(max_workers=8) as ex:
-        futs = {ex.submit(run_shard, ctx, binp, dbg, drv, what, s, n, corpus if (what, s) == ("circ", 0) else ()): (what, s)
+        futs = {ex.submit(run_shard, ctx, binp, dbg, drv, what, s, n, corpus if (what, s) == ("parse", 0) else ()): (what, s)
                 for what, s, n in jobs}
         for f in concurrent.futures.as_completed(futs):
             what, s = futs[f]
